@@ -22,7 +22,7 @@
 (* can be members of one TLC set.                                           *)
 (*                                                                         *)
 (* A message is a record                                                    *)
-(*   [seq, uid, flags, size, iday, sday, hdrs, body]                        *)
+(*   [seq, uid, flags, size, iday, sday, hdrs, body, memo]                  *)
 (* flags: set of names (system flags without the backslash), size: octets   *)
 (* (RFC822.SIZE), iday: day number of INTERNALDATE, sday: day number of the *)
 (* Date: header as written (time and zone disregarded, RFC 3501 6.4.4),     *)
@@ -103,6 +103,25 @@ InSet(v, set, star) ==
             b == Val(set[k][2], star)
         IN Min2(a, b) <= v /\ v <= Max2(a, b)
 
+(* keys that look at the text of the message *)
+StrLeaf(p, m) ==
+    LET k == p[1] IN
+    CASE k = "BCC" -> HdrMatch(m, "bcc", p[2])
+      [] k = "CC" -> HdrMatch(m, "cc", p[2])
+      [] k = "FROM" -> HdrMatch(m, "from", p[2])
+      [] k = "SUBJECT" -> HdrMatch(m, "subject", p[2])
+      [] k = "TO" -> HdrMatch(m, "to", p[2])
+      [] k = "HEADER" -> HdrMatch(m, p[2], p[3])
+      [] k = "BODY" -> BodyMatch(m, p[2])
+      [] k = "TEXT" -> TextMatch(m, p[2])
+
+(* A message may carry `memo`: a function from text keys to the value of   *)
+(* StrLeaf on this very message, computed once when the mailbox is built   *)
+(* (string operations are slow in TLC); it is nothing but a cache.         *)
+NoMemo == [x \in {} |-> TRUE]
+Memoize(m, keys) == [m EXCEPT !.memo = [l \in keys |-> StrLeaf(l, m)]]
+MemoMb(mb, keys) == [i \in DOMAIN mb |-> Memoize(mb[i], keys)]
+
 Leaf(p, m, ctx) ==
     LET k == p[1] IN
     CASE k = "ALL" -> TRUE
@@ -129,16 +148,9 @@ Leaf(p, m, ctx) ==
       [] k = "SENTSINCE" -> m.sday >= p[2]
       [] k = "LARGER" -> m.size > p[2]
       [] k = "SMALLER" -> m.size < p[2]
-      [] k = "BCC" -> HdrMatch(m, "bcc", p[2])
-      [] k = "CC" -> HdrMatch(m, "cc", p[2])
-      [] k = "FROM" -> HdrMatch(m, "from", p[2])
-      [] k = "SUBJECT" -> HdrMatch(m, "subject", p[2])
-      [] k = "TO" -> HdrMatch(m, "to", p[2])
-      [] k = "HEADER" -> HdrMatch(m, p[2], p[3])
-      [] k = "BODY" -> BodyMatch(m, p[2])
-      [] k = "TEXT" -> TextMatch(m, p[2])
       [] k = "SEQ" -> InSet(m.seq, p[2], ctx.n)
       [] k = "UID" -> InSet(m.uid, p[2], ctx.maxuid)
+      [] OTHER -> IF p \in DOMAIN m.memo THEN m.memo[p] ELSE StrLeaf(p, m)
 
 NullaryKeys == {"ALL", "ANSWERED", "DELETED", "DRAFT", "FLAGGED", "RECENT", "SEEN",
                 "UNANSWERED", "UNDELETED", "UNDRAFT", "UNFLAGGED", "UNSEEN", "NEW", "OLD"}
